@@ -192,7 +192,26 @@ fn driver(prop: &str, tier: Tier) -> i32 {
         let (c2, o2) = replay_in_subprocess(&path);
         let verdict1 = o1.lines().filter(|l| l.starts_with("REPLAY-")).last().unwrap_or("").to_string();
         let verdict2 = o2.lines().filter(|l| l.starts_with("REPLAY-")).last().unwrap_or("").to_string();
-        if c1 != c2 || verdict1 != verdict2 {
+        // addresses in messages differ between processes: compare with hex literals masked
+        let mask = |s: &str| -> String {
+            let mut out = String::new();
+            let b: Vec<char> = s.chars().collect();
+            let mut i = 0;
+            while i < b.len() {
+                if b[i] == '0' && i + 1 < b.len() && b[i + 1] == 'x' {
+                    out.push_str("0x?");
+                    i += 2;
+                    while i < b.len() && b[i].is_ascii_hexdigit() {
+                        i += 1;
+                    }
+                } else {
+                    out.push(b[i]);
+                    i += 1;
+                }
+            }
+            out
+        };
+        if c1 != c2 || mask(&verdict1) != mask(&verdict2) {
             eprintln!("replay of {path} is not deterministic ({c1} vs {c2}): machinery error, no verdict");
             machinery_error = true;
             continue;
